@@ -6,9 +6,21 @@
 //  {"op":"P","T":t,"U":u,"enc":"limbs","c":[[[neg,l0,l1,l2,l3],[neg,...]],..]}
 //  {"op":"CE","T":t,"U":u,"c":[[i,j],..]}   operands = i-th / j-th boundary value of T / U; the calls
 //        are evaluated by the compiler in constant expressions (static constexpr data members)
-//  ->  {"op":"P","T":t,"U":u,"enc":..,"ce":0|1,"c":[[a,b,mask],..]}   mask: eq=1 ne=2 lt=4 gt=8 le=16 ge=32
+//        -- only in the binary built with -DCE_TABLE (a separate, template-heavy build)
+//  {"op":"R","T":t,"U":u,"side":0|1,"c":[[a],..]}   for every given a of type T: b sweeps over ALL values of U in
+//        increasing order (U at most 16 bits wide); side 0 calls cmp_*(a, b), side 1 cmp_*(b, a); the
+//        sweep is printed run-length encoded: maximal runs of consecutive b with the same six answers
+//  ->  {"op":"P","T":t,"U":u,"ts":[signed,digits],"us":[signed,digits],"enc":..,"ce":0|1,"c":[[a,b,mask],..]}
+//  ->  {"op":"R","T":t,"U":u,"ts":..,"us":..,"side":s,"c":[[a,[[lo,hi,mask],..]],..]}
+//        mask: eq=1 ne=2 lt=4 gt=8 le=16 ge=32;  ts/us: std::is_signed and std::numeric_limits<>::digits of the
+//        two types as the compiler reports them
 // type ids: 0 int8  1 uint8  2 int16  3 uint16  4 int32  5 uint32  6 int64  7 uint64
+//           8 long long  9 unsigned long long   (standard integer types that are no fixed-width typedef here)
+//           10 char  11 wchar_t  12 char16_t  13 char32_t  14 bool   (integral, but not "integer types" in the standard's
+//           sense - std::cmp_* reject them; built only when -DNTYPES=15 (or 14: without bool) compiles, see checks/c15.py)
 // The operands are printed as read back from the typed variables (not echoed from the script).
+// (any further key of a script line, e.g. "bld", is ignored).  A call that does not return is ended by a per-line
+// CPU / wall-clock watchdog (Crash line).
 #include "vjson.hpp"
 #include "xtl/xcompare.hpp"
 
@@ -18,7 +30,23 @@
 #include <string>
 #include <type_traits>
 #include <utility>
+#include <sys/time.h>
 
+static void on_watchdog(int sig)
+{
+    vj::crash_line(sig == SIGPROF ? "timeout: the call did not return within 3 s of CPU time" : "timeout: the call did not return within 90 s");
+    _exit(0);
+}
+static void arm_watchdog(long cpu_s, long wall_s)
+{
+    struct itimerval cpu = {{0, 0}, {cpu_s, 0}}, wall = {{0, 0}, {wall_s, 0}};
+    setitimer(ITIMER_PROF, &cpu, nullptr);
+    setitimer(ITIMER_REAL, &wall, nullptr);
+}
+
+#ifndef NTYPES
+#  define NTYPES 15
+#endif
 template <int I> struct type_of;
 template <> struct type_of<0> { using type = std::int8_t; };
 template <> struct type_of<1> { using type = std::uint8_t; };
@@ -28,24 +56,126 @@ template <> struct type_of<4> { using type = std::int32_t; };
 template <> struct type_of<5> { using type = std::uint32_t; };
 template <> struct type_of<6> { using type = std::int64_t; };
 template <> struct type_of<7> { using type = std::uint64_t; };
+template <> struct type_of<8> { using type = long long; };
+template <> struct type_of<9> { using type = unsigned long long; };
+template <> struct type_of<10> { using type = char; };
+template <> struct type_of<11> { using type = wchar_t; };
+template <> struct type_of<12> { using type = char16_t; };
+template <> struct type_of<13> { using type = char32_t; };
+template <> struct type_of<14> { using type = bool; };
 
 struct wide { bool neg; std::uint64_t mag; };
 
-template <class T> wide project(T v)
+// ---- per type (not per pair): value <-> 64-bit two's complement pattern <-> [sign, magnitude]
+template <class T> std::uint64_t bits_of(T v)
 {
+    return static_cast<std::uint64_t>(static_cast<typename std::conditional<std::is_signed<T>::value, std::int64_t, std::uint64_t>::type>(v));
+}
+template <class T> T from_bits(std::uint64_t u) { return static_cast<T>(u); }
+template <> inline bool from_bits<bool>(std::uint64_t u) { return u != 0; }
+
+template <class T> wide project_bits(std::uint64_t pattern)
+{
+    T v = from_bits<T>(pattern);
     wide w;
-    w.neg = v < T(0);
-    std::uint64_t u = static_cast<std::uint64_t>(static_cast<typename std::conditional<std::is_signed<T>::value, std::int64_t, std::uint64_t>::type>(v));
+    w.neg = std::is_signed<T>::value && v < T(0);
+    std::uint64_t u = bits_of(v);
     w.mag = w.neg ? (std::uint64_t(0) - u) : u;
     return w;
 }
-
-template <class T> bool inject(const wide& w, T& out)
+// false: the script asked for a value T cannot hold
+template <class T> bool inject_bits(const wide& w, std::uint64_t& pattern)
 {
     std::uint64_t u = w.neg ? (std::uint64_t(0) - w.mag) : w.mag;
-    out = static_cast<T>(u);
-    wide back = project(out);
-    return back.neg == w.neg && back.mag == w.mag;     // false: the script asked for a value T cannot hold
+    if (std::is_same<T, bool>::value && u > 1) return false;
+    pattern = bits_of(from_bits<T>(u));
+    wide back = project_bits<T>(pattern);
+    return back.neg == w.neg && back.mag == w.mag;
+}
+struct type_ops
+{
+    bool (*inject)(const wide&, std::uint64_t&);
+    wide (*project)(std::uint64_t);
+    int is_signed, digits;
+    std::int64_t lo; std::uint64_t hi;      // range (lo as signed, hi as unsigned pattern)
+};
+template <class T> type_ops ops_of()
+{
+    return type_ops{&inject_bits<T>, &project_bits<T>, std::is_signed<T>::value ? 1 : 0, std::numeric_limits<T>::digits,
+                    static_cast<std::int64_t>(std::numeric_limits<T>::min()), bits_of(std::numeric_limits<T>::max())};
+}
+template <std::size_t... K> const type_ops& ops(int t, std::index_sequence<K...>)
+{
+    static const type_ops tab[NTYPES] = { ops_of<typename type_of<int(K)>::type>()... };
+    return tab[t];
+}
+static const type_ops& ops(int t) { return ops(t, std::make_index_sequence<NTYPES>()); }
+
+// ---- per ordered pair of types: nothing but the six calls
+template <class T, class U> __attribute__((noinline)) unsigned six(T a, U b)
+{
+    return (xtl::cmp_equal(a, b) ? 1u : 0u) | (xtl::cmp_not_equal(a, b) ? 2u : 0u) | (xtl::cmp_less(a, b) ? 4u : 0u)
+         | (xtl::cmp_greater(a, b) ? 8u : 0u) | (xtl::cmp_less_equal(a, b) ? 16u : 0u) | (xtl::cmp_greater_equal(a, b) ? 32u : 0u);
+}
+template <class T, class U> unsigned six_bits(std::uint64_t a, std::uint64_t b) { return six<T, U>(from_bits<T>(a), from_bits<U>(b)); }
+using six_fn = unsigned (*)(std::uint64_t, std::uint64_t);
+
+#ifdef CE_TABLE
+// ---- constant-expression use: boundary value i of T
+constexpr int NB = 7;
+template <class T> constexpr T bval(int i)
+{
+    return i == 0 ? std::numeric_limits<T>::min()
+         : i == 1 ? (std::is_signed<T>::value ? static_cast<T>(-1) : static_cast<T>(std::numeric_limits<T>::max() / 2 + 1))
+         : i == 2 ? T(0)
+         : i == 3 ? T(1)
+         : i == 4 ? static_cast<T>(std::numeric_limits<T>::max() / 2)
+         : i == 5 ? static_cast<T>(std::numeric_limits<T>::max() - (std::is_same<T, bool>::value ? 0 : 1))
+         : std::numeric_limits<T>::max();
+}
+template <class T, class U> constexpr unsigned six_ce(T a, U b)
+{
+    return (xtl::cmp_equal(a, b) ? 1u : 0u) | (xtl::cmp_not_equal(a, b) ? 2u : 0u) | (xtl::cmp_less(a, b) ? 4u : 0u)
+         | (xtl::cmp_greater(a, b) ? 8u : 0u) | (xtl::cmp_less_equal(a, b) ? 16u : 0u) | (xtl::cmp_greater_equal(a, b) ? 32u : 0u);
+}
+template <class T, class U, int I, int J> struct ce_cell
+{
+    // a static constexpr data member must be initialised by a constant expression
+    static constexpr unsigned mask = six_ce<T, U>(bval<T>(I), bval<U>(J));
+    // and each function on its own is usable where the language demands a constant (template arguments)
+    using eq = std::integral_constant<bool, xtl::cmp_equal(bval<T>(I), bval<U>(J))>;
+    using ne = std::integral_constant<bool, xtl::cmp_not_equal(bval<T>(I), bval<U>(J))>;
+    using lt = std::integral_constant<bool, xtl::cmp_less(bval<T>(I), bval<U>(J))>;
+    using gt = std::integral_constant<bool, xtl::cmp_greater(bval<T>(I), bval<U>(J))>;
+    using le = std::integral_constant<bool, xtl::cmp_less_equal(bval<T>(I), bval<U>(J))>;
+    using ge = std::integral_constant<bool, xtl::cmp_greater_equal(bval<T>(I), bval<U>(J))>;
+    static constexpr unsigned mask2 = (eq::value ? 1u : 0u) | (ne::value ? 2u : 0u) | (lt::value ? 4u : 0u) | (gt::value ? 8u : 0u)
+                                    | (le::value ? 16u : 0u) | (ge::value ? 32u : 0u);
+};
+template <class T, class U, std::size_t... K> unsigned ce_lookup(int i, int j, std::index_sequence<K...>)
+{
+    static const unsigned tab[NB * NB] = { (ce_cell<T, U, int(K / NB), int(K % NB)>::mask | (ce_cell<T, U, int(K / NB), int(K % NB)>::mask2 << 8))... };
+    return tab[i * NB + j];
+}
+template <class T, class U> unsigned ce_pair(int i, int j, std::uint64_t& a, std::uint64_t& b)
+{
+    a = bits_of(bval<T>(i));
+    b = bits_of(bval<U>(j));
+    return ce_lookup<T, U>(i, j, std::make_index_sequence<NB * NB>());
+}
+using ce_fn = unsigned (*)(int, int, std::uint64_t&, std::uint64_t&);
+template <std::size_t... K> ce_fn pick_ce(int t, int u, std::index_sequence<K...>)
+{
+    static const ce_fn tab[NTYPES * NTYPES] = { &ce_pair<typename type_of<int(K / NTYPES)>::type, typename type_of<int(K % NTYPES)>::type>... };
+    return tab[t * NTYPES + u];
+}
+#endif
+
+template <std::size_t... K> six_fn pick(int t, int u, std::index_sequence<K...>)
+{
+    // all ordered type pairs are instantiated here
+    static const six_fn tab[NTYPES * NTYPES] = { &six_bits<typename type_of<int(K / NTYPES)>::type, typename type_of<int(K % NTYPES)>::type>... };
+    return tab[t * NTYPES + u];
 }
 
 static wide read_value(const vj::value& v, bool limbs)
@@ -73,111 +203,113 @@ static std::string show_value(const wide& w, bool limbs)
     return s + "]";
 }
 
-template <class T, class U> __attribute__((noinline)) unsigned six(T a, U b)
+static std::string head(const char* op, int t, int u)
 {
-    return (xtl::cmp_equal(a, b) ? 1u : 0u) | (xtl::cmp_not_equal(a, b) ? 2u : 0u) | (xtl::cmp_less(a, b) ? 4u : 0u)
-         | (xtl::cmp_greater(a, b) ? 8u : 0u) | (xtl::cmp_less_equal(a, b) ? 16u : 0u) | (xtl::cmp_greater_equal(a, b) ? 32u : 0u);
+    const type_ops& ot = ops(t);
+    const type_ops& ou = ops(u);
+    return std::string("{\"op\":\"") + op + "\",\"T\":" + std::to_string(t) + ",\"U\":" + std::to_string(u)
+         + ",\"ts\":[" + std::to_string(ot.is_signed) + "," + std::to_string(ot.digits) + "],\"us\":[" + std::to_string(ou.is_signed) + ","
+         + std::to_string(ou.digits) + "]";
 }
 
-#ifndef NO_CONSTEXPR_PROBE
-// ---- constant-expression use: boundary value i of T
-constexpr int NB = 5;
-template <class T> constexpr T bval(int i)
-{
-    return i == 0 ? std::numeric_limits<T>::min()
-         : i == 1 ? (std::is_signed<T>::value ? static_cast<T>(-1) : static_cast<T>(std::numeric_limits<T>::max() / 2 + 1))
-         : i == 2 ? T(0)
-         : i == 3 ? T(1)
-         : std::numeric_limits<T>::max();
-}
-template <class T, class U> constexpr unsigned six_ce(T a, U b)
-{
-    return (xtl::cmp_equal(a, b) ? 1u : 0u) | (xtl::cmp_not_equal(a, b) ? 2u : 0u) | (xtl::cmp_less(a, b) ? 4u : 0u)
-         | (xtl::cmp_greater(a, b) ? 8u : 0u) | (xtl::cmp_less_equal(a, b) ? 16u : 0u) | (xtl::cmp_greater_equal(a, b) ? 32u : 0u);
-}
-template <class T, class U, int I, int J> struct ce_cell
-{
-    // a static constexpr data member must be initialised by a constant expression
-    static constexpr unsigned mask = six_ce<T, U>(bval<T>(I), bval<U>(J));
-    // and each function on its own is usable where the language demands a constant
-    static_assert(std::integral_constant<bool, xtl::cmp_equal(bval<T>(I), bval<U>(J))>::value
-                  == !std::integral_constant<bool, xtl::cmp_not_equal(bval<T>(I), bval<U>(J))>::value, "cmp_not_equal is !cmp_equal by definition");
-    using lt = std::integral_constant<bool, xtl::cmp_less(bval<T>(I), bval<U>(J))>;
-    using gt = std::integral_constant<bool, xtl::cmp_greater(bval<T>(I), bval<U>(J))>;
-    using le = std::integral_constant<bool, xtl::cmp_less_equal(bval<T>(I), bval<U>(J))>;
-    using ge = std::integral_constant<bool, xtl::cmp_greater_equal(bval<T>(I), bval<U>(J))>;
-    static constexpr unsigned mask2 = (lt::value ? 4u : 0u) | (gt::value ? 8u : 0u) | (le::value ? 16u : 0u) | (ge::value ? 32u : 0u);
-};
-template <class T, class U, std::size_t... K> unsigned ce_lookup(int i, int j, std::index_sequence<K...>)
-{
-    static const unsigned tab[NB * NB] = { (ce_cell<T, U, int(K / NB), int(K % NB)>::mask | (ce_cell<T, U, int(K / NB), int(K % NB)>::mask2 << 8))... };
-    return tab[i * NB + j];
-}
-#endif
-
-template <class T, class U> int run_line(const vj::value& ev, std::string& o)
+static int run_line(const vj::value& ev, std::string& o)
 {
     const std::string& op = ev.str("op");
+    int t = int(ev.num("T")), u = int(ev.num("U"));
+    if (t < 0 || t >= NTYPES || u < 0 || u >= NTYPES) return 3;
+    const type_ops& ot = ops(t);
+    const type_ops& ou = ops(u);
+    six_fn f = pick(t, u, std::make_index_sequence<NTYPES * NTYPES>());
+    if (op == "R")
+    {
+        int side = int(ev.num("side"));
+        if (ou.digits + ou.is_signed > 16) { std::fprintf(stderr, "script: R sweeps types of at most 16 bits\n"); return 3; }
+        six_fn g = side == 0 ? f : pick(u, t, std::make_index_sequence<NTYPES * NTYPES>());
+        o = head("R", t, u) + ",\"side\":" + std::to_string(side) + ",\"c\":[";
+        bool first = true;
+        for (const vj::value& c : ev.at("c").a)
+        {
+            std::uint64_t abits;
+            if (!ot.inject(read_value(c.a[0], false), abits)) { std::fprintf(stderr, "script: operand not representable in its type\n"); return 3; }
+            std::string runs;
+            long long lo = ou.lo, hi = static_cast<long long>(ou.hi), start = lo;
+            unsigned cur = 0;
+            for (long long b = lo; b <= hi; ++b)
+            {
+                std::uint64_t bbits;
+                wide wb; wb.neg = b < 0; wb.mag = wb.neg ? static_cast<std::uint64_t>(-b) : static_cast<std::uint64_t>(b);
+                if (!ou.inject(wb, bbits)) { std::fprintf(stderr, "sweep value not representable\n"); return 3; }
+                unsigned m = side == 0 ? g(abits, bbits) : g(bbits, abits);
+                if (b == lo) cur = m;
+                if (m != cur)
+                {
+                    runs += (runs.empty() ? "[" : ",[") + std::to_string(start) + "," + std::to_string(b - 1) + "," + std::to_string(cur) + "]";
+                    start = b; cur = m;
+                }
+            }
+            runs += (runs.empty() ? "[" : ",[") + std::to_string(start) + "," + std::to_string(hi) + "," + std::to_string(cur) + "]";
+            if (!first) o += ',';
+            first = false;
+            o += "[" + show_value(ot.project(abits), false) + ",[" + runs + "]]";
+        }
+        o += "]}\n";
+        return 0;
+    }
     bool ce = op == "CE";
+    if (!ce && op != "P") return 3;
     bool limbs = ce ? true : ev.str("enc") == "limbs";
-    o = "{\"op\":\"P\",\"T\":" + std::to_string(ev.num("T")) + ",\"U\":" + std::to_string(ev.num("U"))
-        + ",\"enc\":\"" + (limbs ? "limbs" : "int") + "\",\"ce\":" + (ce ? "1" : "0") + ",\"c\":[";
+    o = head("P", t, u) + ",\"enc\":\"" + (limbs ? "limbs" : "int") + "\",\"ce\":" + (ce ? "1" : "0") + ",\"c\":[";
     bool first = true;
     for (const vj::value& c : ev.at("c").a)
     {
-        T a; U b; unsigned mask;
+        std::uint64_t a = 0, b = 0;
+        unsigned mask;
         if (ce)
         {
-#ifndef NO_CONSTEXPR_PROBE
+#ifdef CE_TABLE
             int i = int(c.a[0].i), j = int(c.a[1].i);
             if (i < 0 || i >= NB || j < 0 || j >= NB) { std::fprintf(stderr, "script: CE index out of range\n"); return 3; }
-            a = bval<T>(i); b = bval<U>(j);
-            unsigned both = ce_lookup<T, U>(i, j, std::make_index_sequence<NB * NB>());
+            unsigned both = pick_ce(t, u, std::make_index_sequence<NTYPES * NTYPES>())(i, j, a, b);
             mask = both & 0xFFu;
-            // the four order functions evaluated one by one as template arguments must tell the same story
-            if (((both >> 8) & 0x3Cu) != (mask & 0x3Cu)) mask = 64u | mask;      // impossible mask: rejected by the spec
+            // the six functions evaluated one by one as template arguments must tell the same story
+            if (((both >> 8) & 0x3Fu) != (mask & 0x3Fu)) mask = 64u | mask;      // impossible mask: rejected by the spec
 #else
-            std::fprintf(stderr, "script: CE op in a build without the constexpr probe\n"); return 3;
+            std::fprintf(stderr, "script: CE op in a build without -DCE_TABLE\n"); return 3;
 #endif
         }
         else
         {
-            if (!inject(read_value(c.a[0], limbs), a) || !inject(read_value(c.a[1], limbs), b))
+            if (!ot.inject(read_value(c.a[0], limbs), a) || !ou.inject(read_value(c.a[1], limbs), b))
             {
                 std::fprintf(stderr, "script: operand not representable in its type\n");
                 return 3;
             }
-            mask = six<T, U>(a, b);
+            mask = f(a, b);
         }
         if (!first) o += ',';
         first = false;
-        o += "[" + show_value(project(a), limbs) + "," + show_value(project(b), limbs) + "," + std::to_string(mask) + "]";
+        o += "[" + show_value(ot.project(a), limbs) + "," + show_value(ou.project(b), limbs) + "," + std::to_string(mask) + "]";
     }
     o += "]}\n";
     return 0;
 }
 
-using line_fn = int (*)(const vj::value&, std::string&);
-template <std::size_t... K> line_fn pick(int t, int u, std::index_sequence<K...>)
-{
-    // all 8 x 8 ordered type pairs are instantiated here
-    static const line_fn tab[64] = { &run_line<typename type_of<int(K / 8)>::type, typename type_of<int(K % 8)>::type>... };
-    return (t < 0 || t > 7 || u < 0 || u > 7) ? nullptr : tab[t * 8 + u];
-}
-
 int main()
 {
     vj::install_crash_handlers();
+    std::signal(SIGPROF, on_watchdog);
+    std::signal(SIGALRM, on_watchdog);
     std::string line, o;
     while (std::getline(std::cin, line))
     {
         if (line.empty()) continue;
         vj::value ev = vj::parse(line);
-        line_fn f = pick(int(ev.num("T")), int(ev.num("U")), std::make_index_sequence<64>());
-        int rc = f ? f(ev, o) : 3;
+        arm_watchdog(ev.str("op") == "R" ? 10 : 3, 90);      // a sweep line makes up to 256 x 65536 x 6 calls (under a second)
+        int rc = run_line(ev, o);
         if (rc != 0) { std::fprintf(stderr, "script: bad line %s\n", line.substr(0, 120).c_str()); return 3; }
         std::fputs(o.c_str(), stdout);
         std::fflush(stdout);
     }
+    arm_watchdog(0, 0);
     return 0;
 }
